@@ -142,14 +142,15 @@ Qed.
 (* [group_ok]: name and password as above, members free of ':' LF and ',', the
    name does not start and the last member does not end with a blank, gid < 2^32,
    the line fits.  For EVERY list of such groups GroupFile.Load returns each
-   group with its fields intact, except that an EMPTY member list comes back as
-   [""] ([norm_group]; finding C16-F6, refuted form below); so groups whose
-   member lists are non-empty round-trip exactly, and in every case writing the
-   read-back again reproduces the file. *)
+   group with its fields intact (an empty member list included, since fix
+   C16-F6), except for the one list the format cannot carry: [""], a single
+   member with the empty name, is written like the empty list and comes back as
+   it ([norm_group]; refuted form below); in every case writing the read-back
+   again reproduces the file. *)
 Theorem c16_group_roundtrip :
   forall gs, Forall group_ok gs ->
   load_groups (write_groups gs) = Ok (map norm_group gs) /\
-  (Forall (fun g => g_members g <> []) gs ->
+  (Forall (fun g => g_members g <> [""]) gs ->
    load_groups (write_groups gs) = Ok gs /\ GroupsRoundTrip gs (load_groups (write_groups gs))) /\
   (exists l, load_groups (write_groups gs) = Ok l /\ write_groups l = write_groups gs).
 Proof.
@@ -160,20 +161,26 @@ Qed.
 Print Assumptions c16_group_roundtrip.
 
 Example c16_group_roundtrip_ex :
-  group_ok (mkGroup "wheel" "x" 10 ["root"; "u"; ""]) /\ g_members (mkGroup "wheel" "x" 10 ["root"; "u"; ""]) <> [] /\
-  group_ok (mkGroup "" "" 4294967295 [""]).
+  group_ok (mkGroup "wheel" "x" 10 ["root"; "u"; ""]) /\ g_members (mkGroup "wheel" "x" 10 ["root"; "u"; ""]) <> [""] /\
+  group_ok (mkGroup "" "" 4294967295 []).
 Proof.
   split; [|split; [discriminate|]];
     (constructor; try (split; reflexivity); try (repeat constructor); try reflexivity; vm_compute; (reflexivity || discriminate)).
 Qed.
 
-(* the full statement (any member list) is false: a group without members is
-   written "g:x:5:" and read back with one member, the empty name (C16-F6) *)
-Theorem c16_group_empty_members_refuted :
+(* the statement for ANY member list is false, and no reader could make it true:
+   [""] and [] are written as the same bytes *)
+Theorem c16_group_single_empty_name_refuted :
   group_ok witness_group /\ ~ GroupsRoundTrip [witness_group] (load_groups (write_groups [witness_group])) /\
-  groups_rt_tags [witness_group] (load_groups (write_groups [witness_group])) = ["viol:group-empty-members-read-as-one-empty-name"].
-Proof. exact groups_empty_members_refuted. Qed.
-Print Assumptions c16_group_empty_members_refuted.
+  write_groups [witness_group] = write_groups [mkGroup "g" "x" 5 []] /\
+  groups_rt_tags [witness_group] (load_groups (write_groups [witness_group])) = ["viol:group-members-changed"].
+Proof. exact groups_single_empty_name_refuted. Qed.
+Print Assumptions c16_group_single_empty_name_refuted.
+(* fixed C16-F6: a group without members comes back without members *)
+Theorem c16_group_no_members_roundtrip :
+  load_groups (write_groups [mkGroup "g" "x" 5 []]) = Ok [mkGroup "g" "x" 5 []].
+Proof. exact groups_no_members_roundtrip. Qed.
+Print Assumptions c16_group_no_members_roundtrip.
 
 (* the validators run on the IMPLEMENTATION's read-back decide the readable statements *)
 Theorem c16_passwd_validator_decides : forall orig rb, users_rt_tags orig rb = [] <-> UsersRoundTrip orig rb.
